@@ -33,7 +33,7 @@ def ridders(f, h0, con=1.4, ntab=10, safe=2.0):
 SCALES = (1.0, 1e-1, 1e-2, 1e-3, 1e-4, 1e-5, 1e-6)
 
 
-def check_derivative(f, analytic, h_max, fscale, f_noise=0.0, rel=2e-5):
+def check_derivative(f, analytic, h_max, fscale, f_noise=0.0, rel=2e-5, mismatch_rel=1e-3):
     """Compares an analytic directional derivative with Ridders runs at step scales h_max * 10^-k.
 
     Returns ("ok" | "inconclusive" | "mismatch", runs).  A run is conclusive if its error estimate is
@@ -42,9 +42,9 @@ def check_derivative(f, analytic, h_max, fscale, f_noise=0.0, rel=2e-5):
     by its smallest step is small as well.  Coarse runs can be confidently wrong when f has structure below
     their step size, fine runs drown in round-off; so:
 
-    * ok           — some conclusive run agrees with the analytic value;
-    * mismatch     — no conclusive run agrees, at least two runs are conclusive, the two finest conclusive
-                     runs agree with each other and no finer run contradicts them;
+    * ok           — some run whose extrapolation settled agrees with the analytic value to ``rel``;
+    * mismatch     — no such run, at least two runs are conclusive, the two finest conclusive runs agree with each
+                     other, differ from the analytic value by more than ``mismatch_rel``, and no finer run contradicts them;
     * inconclusive — otherwise."""
     runs = []
     floor = 1e-7 * fscale
@@ -62,13 +62,19 @@ def check_derivative(f, analytic, h_max, fscale, f_noise=0.0, rel=2e-5):
         noise = 40.0 * f_noise / h0  # smallest step of a run is about h0 / 20
         conclusive = err <= 1e-4 * mag + floor and noise <= 1e-4 * mag + floor
         runs.append((h0, est, err, conclusive))
-        if conclusive and agree(analytic, 0.0, est, err):
+        # a run whose extrapolation settled and which reproduces the analytic value to 2e-5 is evidence for it, whatever the
+        # round-off bound says (noise does not reproduce a number to five digits by chance)
+        if err <= 1e-4 * mag + floor and agree(analytic, 0.0, est, err):
             return "ok", runs
     concl = [r for r in runs if r[3]]
     if len(concl) >= 2 and agree(concl[-1][1], concl[-1][2], concl[-2][1], concl[-2][2]):
         ref = concl[-1][1]
-        # a finer run that did not qualify as conclusive still vetoes when it contradicts the reference beyond its own
-        # error estimate and round-off bound (the coarse runs may all have stepped over a narrow feature)
+        # coarse runs can all have stepped over a narrow feature of f (a smoothed kink gives the same wrong slope at every
+        # step above its width).  Hence: (i) only a deviation far above the tolerance of "ok" counts, (ii) a finer run
+        # that did not qualify as conclusive still vetoes when it contradicts the reference beyond its own error estimate
+        # and round-off bound
+        if abs(analytic - ref) <= mismatch_rel * max(abs(analytic), abs(ref)) + 10.0 * floor:
+            return "inconclusive", runs
         for h0, est, err, ok in runs:
             if ok or h0 >= concl[-1][0] or not (math.isfinite(est) and math.isfinite(err)):
                 continue
